@@ -839,7 +839,9 @@ impl ErasedNode for Node {
             this amounts to checking that [parent] won't be invalidated, i.e. that
             [parent]'s scope has already stabilized. */
             Kind::BindLhsChange { .. } | Kind::MapRef(_) | Kind::MapWithOld(_) | Kind::Map(_) => {
-                let scope_height = parent.created_in.height();
+                // (deep: [parent] may be in use on its own while the bind it was created in is
+                // not necessary, inside a bind that is)
+                let scope_height = parent.created_in.deep_height();
                 child.height() > scope_height && scope_height < min_height
             }
             // | Freeze _ -> node.height > Scope.height parent.created_in
